@@ -117,12 +117,22 @@ def cases(tier):
     zones = compute_transitions()
     classes = signature_classes(zones)
     out = []
+    shapes_seen = set()
     for rep in sorted(classes):
         trs = zones[rep]
         for k, (iso, ob, oa) in enumerate(trs):
             year = int(iso[:4])
             if tier == "quick" and not (2019 <= year <= 2023):
-                continue
+                # outside the quick years: keep the first representative of every transition SHAPE
+                # (size and direction of the change, local wall time at which it happens)
+                lb = (pd.Timestamp(iso) - pd.Timedelta(minutes=15)).tz_convert(rep)
+                shape = (oa - ob, lb.hour, lb.minute)
+                if shape in shapes_seen:
+                    continue
+                shapes_seen.add(shape)
+            elif tier == "quick":
+                lb = (pd.Timestamp(iso) - pd.Timedelta(minutes=15)).tz_convert(rep)
+                shapes_seen.add((oa - ob, lb.hour, lb.minute))
             out.append({"part": "H", "zone": rep, "utc": iso, "ob": ob, "oa": oa, "members": len(classes[rep])})
     dcases = []
     for rep in sorted(classes):
